@@ -82,6 +82,17 @@ check("C20",
       "whose totals exceed the input width must return the exact sums/products; var/std on shifted residues within 1e-6 of the exact rational.",
       TB + " No rounding-error bound is claimed.", "TLC engine/algebra models + trace validation of API returns", "DESIGN.md section 5 C20")
 
+check("C07",
+      "MC_Factorize (BinsLikeCut on edges/interior/outside/NaN/+-inf for both closed sides, RavelOk: tuple code row-major, injective, -1 absorbing) at "
+      "design level; real calls with 1-3 groupers of any mix of categorical/binned kinds, equal shapes or size-1 broadcasting, eager and chunked, numpy "
+      "and dask labels are validated by TraceMulti.tla, which recomputes every element's tuple slot from Ref!RefCut and the requested labels.",
+      TB + " RefCut is cross-checked against real pandas.cut by the selftest.", "TLC factorisation model + trace validation (tuple-key semantics, pandas.cut)", "DESIGN.md section 5 C07")
+check("C08",
+      "MC_Factorize!OffsetsOk (per-slice offsets injective, -1 preserved) at design level; real calls on 1-4-D arrays with 1-3-D labels and every "
+      "non-empty subset of label dims as axis (any order/sign), eager and chunked along any axes: shape checked, then EVERY kept-index slice validated as "
+      "a 1-D grouped reduction by TraceReduce.tla.",
+      TB, "trace validation of every slice of N-D results against the 1-D reference + TLC offsets model", "DESIGN.md section 5 C08")
+
 ALL = [f"C{n:02d}" for n in range(1, 21)]
 
 def main():
